@@ -476,6 +476,15 @@ void explore_spec(int si, int bound, double budget, SpecStats& st, Violation& vi
                 if (read(s0.res_r, &c, 1) != 1) { fprintf(stderr, "pmc: slot died\n"); exit(2); }
                 s0.busy = 0;
                 pmc_exec_rec* r2 = s0.rec;
+                if (r2->outcome == OUT_DIVERGED && mult > 1)
+                {
+                    // relaxed limits move the quantum expiries of a long (livelocked) execution: replay it
+                    // once more exactly as it ran
+                    submit(s0, si, full, 1, 1);
+                    if (read(s0.res_r, &c, 1) != 1) { fprintf(stderr, "pmc: slot died\n"); exit(2); }
+                    s0.busy = 0;
+                    r2 = s0.rec;
+                }
                 if (r2->outcome != OUT_OK && r2->outcome != OUT_DIVERGED && first_id == r2->fail_id)
                 {
                     viol.found = true;
